@@ -10,7 +10,7 @@ use serde_json::{json, Value};
 use vph::fgen;
 use vph::refdec;
 
-pub const RULE: &str = "(1) for each file of the damage corpus (crate-encoded mono/stereo/multichannel files with and without seek table and with unknown total; fgen-built files covering verbatim/constant/fixed/LPC subframes, wasted bits, escaped partitions, 5-bit Rice method, variable blocking and all stereo modes): EVERY single-bit flip at or after the first frame byte and EVERY truncation length, decoded through 4 reader front-ends + verify_reader, plus every bit of the stored MD5; (2) every must-reject class (bad sync, reserved header bit, reserved/illegal block-size, rate, channel, depth codes, malformed coded numbers, wrong CRC-8/CRC-16, header fields inconsistent with STREAMINFO, frame exceeding the declared total, subframe pad bit, reserved subframe types, wasted bits ≥ depth, precision 1111, negative shift, reserved coding methods, illegal partition orders, non-final blocks of 1..14 samples in fixed- and variable-blocksize streams) generated with valid checksums in frame 0 and in the last frame of the plain stream and of every stream within 2 (thorough 3) valid deviations; oracle: Ok ⇒ the independent decoder accepts the altered bytes with the same PCM; Err ⇒ samples delivered before it are a whole-frame prefix of the original and contain nothing of a must-reject frame; MD5Match only if the decoded PCM hashes to the stored digest";
+pub const RULE: &str = "(1) for each file of the damage corpus (crate-encoded mono/stereo/multichannel files with and without seek table and with unknown total; fgen-built files covering verbatim/constant/fixed/LPC subframes, wasted bits, escaped partitions, 5-bit Rice method, variable blocking and all stereo modes): EVERY single-bit flip at or after the first frame byte and EVERY truncation length, decoded through 4 reader front-ends + verify_reader, plus every bit of the stored MD5; (2) every must-reject class (bad sync, reserved header bit, reserved/illegal block-size, rate, channel, depth codes, malformed coded numbers, wrong CRC-8/CRC-16, header fields inconsistent with STREAMINFO, frame exceeding the declared total, subframe pad bit, reserved subframe types, wasted bits ≥ depth, precision 1111, negative shift, reserved coding methods, illegal partition orders, non-final blocks of 1..14 samples in fixed- and variable-blocksize streams) generated with valid checksums in frame 0 and in the last frame of the plain stream and of every stream within 2 (thorough 3) valid deviations; oracle: Ok ⇒ the independent decoder accepts the altered bytes with the same PCM; Err ⇒ samples delivered before it are a whole-frame prefix of the original and contain nothing of a must-reject frame; MD5Match only if the decoded PCM hashes to the stored digest, NoMD5 only for bytes the independent decoder accepts (the corpus holds files without a stored digest)";
 pub const ASSUMPTIONS: &[&str] = &["damage limited to one bit flip or one truncation per file; two simultaneous malformations only as (malformation × valid deviation)", "codes a decoder may but need not reject (non-zero padding, residual = -2^31, out-of-range reconstructed samples, a non-final block of exactly 15 samples, zero-length first partition) impose no verdict; non-final blocks of <= 14 samples must be rejected (the crate's short-block rule)"];
 pub fn bounds(quick: bool) -> Value {
     json!({"corpus_files": crate::corpus::damage_corpus(false).len(), "bit_flips": "every bit from the first frame byte on", "truncations": "every length", "malformed_pairs": if quick { "bad × ≤2 valid deviations" } else { "bad × ≤3 valid deviations" }})
@@ -63,6 +63,15 @@ pub fn judge(altered: &[u8], orig_pcm: &[i32], cum: &[usize], bad_from: usize) -
                         return Some(("must-reject-frame-delivered".into(), format!("{r:?} delivered {} samples (frames up to #{}) although frame #{bad_from} is illegal; error afterwards: {}", got.len(), cum.iter().position(|c| *c == got.len()).unwrap_or(99), err_class(&e))));
                     }
                 }
+            }
+        }
+    }
+    // verify_reader: "no digest stored" is only a truthful verdict for bytes that decode at all — NoMD5 for bytes the
+    // independent decoder rejects is a damaged stream decoded silently
+    if let Ok(Ok(Verified::NoMD5)) = guarded(|| verify_reader(altered)) {
+        if let Err(rej) = &reference {
+            if !(MAY_ACCEPT.contains(&rej.code) && !short_block_must_reject(rej)) {
+                return Some((format!("verify-accepts-invalid-stream|{}", rej.code), format!("verify_reader returns Ok(NoMD5) for bytes the independent decoder rejects: {} ({})", rej.code, rej.msg)));
             }
         }
     }
